@@ -128,6 +128,9 @@ type c17Folder struct {
 	// words (behind an assignment they are command names): no aliases for
 	// reserved words then
 	reservedSpellingsAsWords bool
+	// plainWords: every plain word of the program, in whatever position (such
+	// a word may come to stand behind an alias that ends in a blank)
+	plainWords map[string]bool
 }
 
 func (f *c17Folder) fresh() string {
@@ -267,7 +270,7 @@ func (f *c17Folder) fold(s *gen.Stream, depth int) {
 		if !blank && j < len(s.Toks) && s.Toks[j].Kind == gen.KIONum && rapid.IntRange(0, 1).Draw(f.rt, "blank_before_ionumber") == 0 {
 			// a trailing blank in front of the number of a redirection: that is
 			// no word, whatever the table says about its digits
-			if num := s.Toks[j].FlatText(); !f.used[num] {
+			if num := s.Toks[j].FlatText(); !f.used[num] && !f.plainWords[num] {
 				if _, defined := f.aliases[num]; !defined {
 					f.aliases[num] = "MUST_NOT_APPEAR ;; ("
 				}
@@ -335,10 +338,13 @@ func TestC17(t *testing.T) {
 		p := gen.Complete(gen.RapidChooser{T: rt}, o)
 		orig := gen.Render(p.Stream, gen.Canonical{}).Src
 		s := p.Stream.Clone()
-		f := &c17Folder{rt: rt, aliases: map[string]string{}, used: map[string]bool{}, stats: map[string]int{}, cmdPosCount: map[string]int{}}
+		f := &c17Folder{rt: rt, aliases: map[string]string{}, used: map[string]bool{}, stats: map[string]int{}, cmdPosCount: map[string]int{}, plainWords: map[string]bool{}}
 		// names that occur in command position must not be (re)defined by the
 		// "must stay untouched" aliases below
 		s.Walk(func(_ *gen.Stream, _ int, tk *gen.Tok) {
+			if tk.Kind == gen.KWord {
+				f.plainWords[tk.FlatText()] = true
+			}
 			if nm, ok := plainName(tk); ok && tk.CmdPos {
 				f.used[nm] = true
 				f.cmdPosCount[nm]++
